@@ -1,7 +1,7 @@
 #!/bin/bash
 # Builds the framework offline from files on disk: instrumenter, instrumented overlay of /repo, harness binary (+ race variant).
 set -e
-cd /verif
+cd ${VERIF_DIR:-/verif}
 export GOFLAGS=-mod=mod GOPROXY=off GOSUMDB=off GOTOOLCHAIN=local GODEBUG=goindex=0
 mkdir -p build/bin evidence replays
 BIN=$(bin/build.sh)
